@@ -264,7 +264,8 @@ def run_prog(ctx, prog):
 
 
 DONE_UNITS = [('line', 'Line', 'kr'), ('line', 'Line', 'ar'), ('line', 'XLine', 'kr'), ('line', 'XLine', 'ar'),
-              ('envgen', 'Linen', 'kr'), ('envgen', 'EnvGen', 'kr'), ('oscillators', 'LFGauss', 'ar')]
+              ('envgen', 'Linen', 'kr'), ('envgen', 'EnvGen', 'kr'), ('oscillators', 'LFGauss', 'ar'),
+              ('filter', 'DetectSilence', 'ar'), ('filter', 'DetectSilence', 'kr')]
 
 
 def stateful_scenario(ctx):
@@ -286,6 +287,8 @@ def stateful_scenario(ctx):
         ctor = getattr(cls, rate)
         if name == 'EnvGen':
             u = ctor(env.Env.perc(), done_action=2)
+        elif name == 'DetectSilence':
+            u = ctor(getattr(nse.LFNoise0, rate)(302), 0.001, c1, done_action=2)
         elif name == 'LFGauss':
             u = ctor(c1, 0.1, done_action=2)
         elif name == 'Linen':
@@ -439,6 +442,10 @@ def programs(tier):
             tmpl.append(([('sumn', *combo)], [0]))
             tmpl.append(([('mix', *combo)], [0]))
     tmpl.append(([('mix', 'A', 'B', 'K', 'c1', 'A', 'c2', 'B')], [0]))
+    # subtracting a negation from something the optimiser can fuse further
+    for first in (('+', 'A', 'B'), ('*', 'A', 'B'), ('neg', 'A'), ('+', 'A', 'c1')):
+        tmpl.append(([first, ('neg', 'K'), ('-', 0, 1)], [2]))
+        tmpl.append(([first, ('+', 'B', 'K'), ('neg', 1), ('-', 0, 2)], [3]))
     # list forms of madd over channels of different rates (each channel's unit has the rate of ITS inputs)
     for x, y in (('A', 'K'), ('K', 'A'), ('A', 'B'), ('K', 'K')):
         for m, a in (('c1', 'c2'), ('K', 'c1'), ('c1', 'K'), ('A', 'c1')):
